@@ -55,7 +55,7 @@ def check_timed_wait(ctx, what, B, outs, is_future, duration_src, scrub_arg_ok, 
                         'no ID scrub is sent when the timeout elapses: the routing entry and the ID leak and a late reply can be delivered')
                 for i, a in after:
                     ctx.add('%s.scrub-own-id' % what, B.path, loc0, scrub_arg_ok(a[1], o),
-                            'the scrubbed ID %s is not %s' % (absx.fmt(a[1])[:60], scrub_desc))
+                            scrub_desc(a[1]) if callable(scrub_desc) else 'the scrubbed ID %s is not %s' % (absx.fmt(a[1])[:60], scrub_desc))
                 ctx.add('%s.elapsed-propagated' % what, B.path + '|' + psig(o), loc0, o.kind in ('ret', 'val') and sem.is_err_result(o.val),
                         'after the timeout elapsed the function returns %s instead of an error' % absx.fmt(o.val)[:60])
             elif fine:
@@ -141,8 +141,10 @@ def run(ctx):
     nouts, _I = sem.paths(f, N, result_combinators=True)
     def is_recv(t):
         return t[0] == 'call' and t[1].startswith('tokio::sync::mpsc::') and t[1].endswith('Receiver::<T>::recv') and len(t[2]) == 1 and sem.has(t[2][0], lambda x: x == ('field', SELF, 'rx'))
+    import streamid
+    SID = streamid.StreamSearchId(f)
     check_timed_wait(ctx, 'O2', N, nouts, is_recv, lambda v: v == ('field', SELF, 'timeout'),
-                     lambda a, o: a == ('field', ('field', SELF, 'ldap'), 'last_id'), 'the ID of the stream\'s own search (its handle\'s last_id)')
+                     lambda a, o: SID.accepts(a), lambda a: SID.why_not(a))
     # the per-item duration persists: nothing in the per-item call writes or takes the stream's timeout
     touched = [1 for o in nouts for i, place, val, node in sem.stores(o, lambda p: p == ('field', SELF, 'timeout'))]
     ctx.add('O2.duration', N.path + '|persists', loc(N.root), not touched, 'the per-item call consumes or overwrites the stream\'s timeout: later items are not timed')
